@@ -38,33 +38,53 @@ TECHNIQUE = "finite-transducer extraction from the pattern translator compared w
 
 META = {
     "explanation": (
-        "R1: the body of inventory._create_regex is evaluated over the finite abstract domain (flag values x character "
-        "classes {'*', '\\\\', any other character, plus every other constant the code compares the character with}) into a "
-        "sequential transducer whose outputs are regex fragments classified with re._parser (LIT(c) only through re.escape, "
-        "ANY* as MAX_REPEAT(0, inf, ANY)); its output on every abstract pattern up to length 6, including the end-of-pattern "
-        "flush, must equal the documented machine ('*' -> any run, '\\\\*' -> literal star, every other character itself, "
-        "a backslash not followed by '*' is itself). The compile flags must not fold case and the ANY fragment must match "
-        "every character. R2: match_with_wildcard returns True exactly under `pattern is None`, otherwise the result of "
-        "fullmatch of the unmodified name against the regex built from the unmodified pattern; the cached translator has the "
-        "pattern as its only parameter and every call passes the whole pattern. R3: in filter_inventories and "
-        "filter_sphinx_inventories a role inference over the nested loops (inventory key / domain / object type / name, "
-        "item fields) shows that each coordinate is tested against its own filter, that all four tests dominate every yield, "
-        "that the InvMatch fields are filled from the same roles in both representations (the '-' text normalisation agrees "
-        "with from_sphinx), that iteration is over the mappings' own order, that every loop visits every entry of its level "
-        "(the iterable is never narrowed by using a filter pattern as a literal key unless that alternative is chosen only "
-        "under `'*' not in <filter>`), that no break/return cuts the enumeration short and that entries are skipped only "
-        "after a failed wildcard test; the joined `domain:type` key is never matched as one string. R4: callers hand the filters on under the same "
-        "roles (href parts inv:domain:type#target, keyword pass-through, CLI options); an abstract execution of "
-        "render_link_inventory per number of path parts (1, 2, 3; IndexError under suppress/except, tuple assignments evaluated "
-        "as a whole, length guards, None padding) shows every given part bound to its filter at the lookup; the inventory stored "
-        "for a configuration key is fetched with that entry's base URL and is not memoised under a key lacking it; the inv: link path emits IREF_MISSING "
-        "exactly once and no reference for 0 matches, nothing for 1, IREF_AMBIGUOUS exactly once for >1 (evaluated over the "
-        "abstract match count on the CFG; star-unpacking `first, *rest = matches` and tests on the rest are understood; an "
-        "emission extracted into a helper that emits exactly once is followed one level), uses the first match and builds refuri as join(base_url, loc) if base_url else loc."
+        "R1 (translator = documented machine): the body of inventory._create_regex is evaluated over the finite abstract domain "
+        "(flag valuations x character classes {'*', backslash, any other character, plus every other constant the code compares the "
+        "character with}) into a sequential transducer whose outputs are regex fragments classified with re._parser (LIT(c) only "
+        "through re.escape, the wildcard as MAX_REPEAT(0, inf, ANY)); its complete output, including the end-of-pattern flush, on every "
+        "abstract pattern up to length 2*|states|+1 must equal the documented two-state machine ('*' -> any run, backslash-star -> "
+        "literal star, every other character itself, a backslash not followed by '*' is itself). The compile flags must not fold case "
+        "and the ANY fragment must match every character (DOTALL). "
+        "R2 (API): match_with_wildcard returns True exactly under `pattern is None`, otherwise fullmatch of the unmodified name against "
+        "the regex built from the unmodified pattern; the cached translator has the pattern as its only parameter, reads no mutable "
+        "global, and every call passes the whole pattern. "
+        "R3 (the two filter functions): a role inference over the nested loops (inventory key / domain / object type / name, item "
+        "fields; split(':', 1) of the Sphinx key; the 4-tuple item) shows that each coordinate is tested against its own filter - through "
+        "match_with_wildcard or through _create_regex(<filter>).fullmatch, never Pattern.match/search and never on the joined "
+        "domain:type key -, that all four tests dominate every yield (an `f is None or ...` disjunct is accepted), that the InvMatch "
+        "fields are filled from the same roles in both representations (the '-' text normalisation agrees with from_sphinx), that "
+        "iteration keeps the mappings' own order, that every loop visits every entry of its level (the iterable is never narrowed by "
+        "using a filter as a literal key unless that alternative is chosen only under `'*' not in <filter>`), that no break/return cuts "
+        "the enumeration short and that entries are skipped only after a failed wildcard test. "
+        "R4 (callers and the inv: link): callers hand every filter on under its own role (keyword pass-through in both "
+        "get_inventory_matches, the resolver, the CLI options; href parts inv:<invs>:<domains>:<otypes>#<target>); both "
+        "get_inventory_matches implementations return the filter results without re-ordering; an abstract execution of "
+        "render_link_inventory per number of path parts (1, 2, 3; IndexError under suppress/except, tuple assignments evaluated as a "
+        "whole, length guards, None padding) shows every given part bound to its filter at the lookup; the inventory stored for a "
+        "configuration key is fetched with that entry's base URL and is not memoised under a key lacking it; on the CFG, evaluated "
+        "under the abstract match count (0, 1, 2, 3+; star-unpacking of the match list understood; an emission extracted into a helper "
+        "that emits exactly once is followed one level), the link path emits IREF_MISSING exactly once and no reference for 0 matches, "
+        "nothing but one reference for 1, IREF_AMBIGUOUS exactly once plus one reference for >1; the handler of a try around the href "
+        "parse is its own outcome class (exactly one warning, no lookup, no reference); the first match is used; refuri is "
+        "posixpath.join(base_url, loc) if base_url else loc (urljoin is rejected: RFC-relative resolution drops the base's last segment), "
+        "match.loc for Sphinx inventories."
     ),
-    "not_decided": "matching results as values for concrete (pattern, name) pairs beyond what the extracted transducer implies; behaviour of re itself; contents of loaded inventories; URL joining semantics of posixpath.join",
-    "trusted_base": ["CPython ast", "CPython re._parser (regex fragment classification)", "the role tables in this module (mapping layout of InventoryType / Sphinx named_inventory)"],
-    "assumptions": ["re.escape(x) yields a regex matching exactly the string x", "fullmatch of a concatenation of LIT / ANY* fragments is the documented matching relation"],
+    "not_decided": (
+        "matching results as values for concrete (pattern, name) pairs beyond what the extracted transducer implies; the behaviour of "
+        "re and posixpath.join themselves; contents of loaded inventories; hrefs with more than three path parts; behaviour of the "
+        "filters when rewritten with comprehensions or extracted generator helpers (answered ANALYSIS-ERROR, not decided)"
+    ),
+    "trusted_base": [
+        "CPython ast",
+        "CPython re._parser (regex fragment classification)",
+        "the role tables in this module (mapping layout of InventoryType / Sphinx named_inventory, item tuple (project, version, uri, dispname), config layout key -> (base uri, path))",
+    ],
+    "assumptions": [
+        "re.escape(x) yields a regex matching exactly the string x",
+        "fullmatch of a concatenation of LIT / ANY* fragments compiled with DOTALL is the documented matching relation",
+        "a pattern without '*' consists of literal characters only (used to accept a guarded literal-key shortcut)",
+        "the statements of a try body other than the href parse do not raise the handled exception",
+    ],
 }
 
 INV = "myst_parser.inventory"
@@ -123,6 +143,19 @@ def _elem_source(seq: ast.expr, i: int) -> ast.expr:
             return _elem_source(seq.value, i)
     if isinstance(seq, ast.Call) and isinstance(seq.func, ast.Name) and seq.func.id in ("list", "tuple") and len(seq.args) == 1 and not seq.keywords:
         return _elem_source(seq.args[0], i)
+    if isinstance(seq, (ast.GeneratorExp, ast.ListComp)) and len(seq.generators) == 1:
+        # (f(x) for x in (a, b, c)) unpacked: element i is f(<i-th item>)
+        gen = seq.generators[0]
+        if not gen.ifs and not gen.is_async and isinstance(gen.target, ast.Name) and isinstance(gen.iter, (ast.Tuple, ast.List)) and i < len(gen.iter.elts) and not any(isinstance(x, ast.Starred) for x in gen.iter.elts):
+            var, item = gen.target.id, ast.unparse(gen.iter.elts[i])
+
+            class Sub(ast.NodeTransformer):
+                def visit_Name(self, node):
+                    return ast.parse(item, mode="eval").body if node.id == var else node
+
+            new = Sub().visit(ast.parse(ast.unparse(seq.elt), mode="eval").body)
+            ast.fix_missing_locations(new)
+            return new
     return ast.Subscript(value=seq, slice=ast.Constant(i), ctx=ast.Load())
 
 
@@ -983,6 +1016,38 @@ def r3_pairing(corpus: Corpus, rep: Report, tier: str):
             elif isinstance(b, ast.Assign):
                 if not cfg.dominates(b, st):
                     raise Unsupported(f"{fi.qualname}: the {kind} test is not dominated by the assignment of {c.args[0].id}")
+        # (a2) a coordinate tested directly with a compiled pattern (Pattern.fullmatch / match / search, re.fullmatch / ...)
+        cr = corpus.func("inventory:_create_regex")
+        for c in fi.local_nodes():
+            if not (isinstance(c, ast.Call) and isinstance(c.func, ast.Attribute) and c.func.attr in ("fullmatch", "match", "search")):
+                continue
+            is_re = fi.module.resolve(dotted(c.func) or "") in ("re.fullmatch", "re.match", "re.search")
+            subj = (c.args[1] if len(c.args) >= 2 else None) if is_re else (c.args[0] if len(c.args) == 1 else None)
+            kind = kd.kind_of(subj) if subj is not None else None
+            if kind == "DOMOTYPE" or kind in FILTER_ROLE.values():
+                rep.saw_call(fi.module.site(c))
+            else:
+                continue
+            k = f"{fi.fq}|{kind} is tested with a whole-string wildcard match"
+            st = cfg.stmt_of(c)
+            if not (isinstance(st, ast.If) and any(x is c for x in ast.walk(st.test))):
+                raise Unsupported(f"{fi.qualname}: `{short(c, 50)}` is not part of an if-test; its effect on the yield is not modelled")
+            if c.func.attr != "fullmatch":
+                tested[id(c)] = (kind, False)
+                rep.violation("C19.R3", k, fi.module.site(c), f"`{short(c, 60)}` tests the {kind} coordinate with `{c.func.attr}`, which accepts any value that merely starts with / contains a match: "
+                              f"the pattern no longer has to match the {kind} in full (e.g. pattern 'py' accepts 'python'), and the result differs from the other representation, which uses fullmatch")
+                continue
+            if is_re or kind == "DOMOTYPE":
+                raise Unsupported(f"{fi.qualname}: `{short(c, 50)}` - direct regex match not traced to _create_regex of a filter")
+            fparam = _regex_filter(c.func.value, fi, cr, g)
+            if fparam is None:
+                raise Unsupported(f"{fi.qualname}: the pattern object in `{short(c, 50)}` is not traced to _create_regex(<filter>)")
+            good = FILTER_ROLE.get(fparam) == kind
+            tested[id(c)] = (kind, good)
+            if good:
+                rep.ok("C19.R3", k, fi.module.site(c), f"{kind} ~ _create_regex({fparam}).fullmatch")
+            else:
+                rep.violation("C19.R3", k, fi.module.site(c), f"`{short(c, 60)}` matches the {kind} coordinate against the pattern compiled from the `{fparam}` filter")
         # (b) every yield is dominated by a positive test of each coordinate
         yields = [n for n in fi.local_nodes() if isinstance(n, (ast.Yield, ast.YieldFrom))]
         if not yields or any(isinstance(y, ast.YieldFrom) for y in yields):
@@ -1133,6 +1198,32 @@ def _star_free(leaf: ast.expr, conds: list, filters: list[str]) -> bool:
         if not ok:
             return False
     return bool(used)
+
+
+def _regex_filter(recv: ast.expr, fi: FunctionInfo, cr: FunctionInfo, g, depth: int = 0) -> str | None:
+    """Filter parameter whose compiled pattern ``recv`` is: `_create_regex(f)` or `_create_regex("*" if f is None else f)`
+    (an omitted filter compiled as '*', which matches everything), directly or through a single-assignment local."""
+    if depth > 3:
+        return None
+    if isinstance(recv, ast.Name):
+        defs = _defs_of(fi, recv.id)
+        return _regex_filter(defs[0], fi, cr, g, depth + 1) if len(defs) == 1 else None
+    if isinstance(recv, ast.Call) and len(recv.args) == 1 and not recv.keywords and cr in g.flat_targets(g.resolve_call(recv, fi)):
+        a = recv.args[0]
+        if isinstance(a, ast.IfExp):
+            nt = None
+            for f in fi.params:
+                v = _is_none_test(a.test, f)
+                if v is not None:
+                    nt = (f, v)
+            if nt is None:
+                return None
+            star, other = (a.body, a.orelse) if nt[1] else (a.orelse, a.body)
+            if isinstance(star, ast.Constant) and star.value == "*" and isinstance(other, ast.Name) and other.id == nt[0]:
+                a = other
+        if isinstance(a, ast.Name) and a.id in fi.params and not _defs_of(fi, a.id):
+            return a.id
+    return None
 
 
 def _filter_none_test(t: ast.expr, filters: list[str]) -> tuple[str, bool] | None:
@@ -1685,6 +1776,40 @@ def _base_url_check(corpus: Corpus, rep: Report) -> None:
         rep.violation("C19.R4", k, fi.module.site(st), problem)
 
 
+def _order_breakers(e: ast.expr, fi: FunctionInfo, depth: int = 0) -> list[tuple[str, ast.AST]]:
+    """Calls that re-order / de-duplicate the sequence of matches on its way from the filter call to ``e``."""
+    if depth > 5:
+        raise Unsupported(f"{fi.qualname}: returned matches defined through too many locals")
+    if isinstance(e, ast.Name):
+        if e.id in fi.params:
+            return []
+        out: list[tuple[str, ast.AST]] = []
+        for n in fi.local_nodes():  # in-place re-ordering of the local
+            if isinstance(n, ast.Call) and isinstance(n.func, ast.Attribute) and isinstance(n.func.value, ast.Name) and n.func.value.id == e.id and n.func.attr in ("sort", "reverse"):
+                out.append((f".{n.func.attr}()", n))
+        defs = _defs_of(fi, e.id)
+        if not defs:
+            raise Unsupported(f"{fi.qualname}: returned name {e.id} has no definition")
+        for d in defs:
+            out += _order_breakers(d, fi, depth + 1)
+        return out
+    if isinstance(e, ast.Call):
+        name = (dotted(e.func) or "").rsplit(".", 1)[-1]
+        if isinstance(e.func, ast.Name) and e.func.id in ORDER_BREAKERS and e.args:
+            return [(e.func.id, e)] + _order_breakers(e.args[0], fi, depth + 1)
+        if isinstance(e.func, ast.Name) and e.func.id in ("list", "tuple", "iter") and len(e.args) == 1:
+            return _order_breakers(e.args[0], fi, depth + 1)
+        if name in ("filter_inventories", "filter_sphinx_inventories"):
+            return []
+        if isinstance(e.func, ast.Attribute) and e.func.attr in ("copy",) and not e.args:
+            return _order_breakers(e.func.value, fi, depth + 1)
+    if isinstance(e, (ast.ListComp, ast.GeneratorExp)) and len(e.generators) == 1:
+        return _order_breakers(e.generators[0].iter, fi, depth + 1)  # filtering / mapping keeps the order
+    if isinstance(e, ast.Subscript) and isinstance(e.slice, ast.Slice) and e.slice.step is None:
+        return _order_breakers(e.value, fi, depth + 1)
+    raise Unsupported(f"{fi.qualname}: returned matches come from `{short(e, 50)}`, which is not traced to a filter call")
+
+
 LINK_FUNCS = [
     # (function, emits IREF_MISSING for 0 matches?, representation)
     ("mdit_to_docutils.base:DocutilsRenderer.render_link_inventory", True, "native"),
@@ -1734,6 +1859,21 @@ def r4_link_paths(corpus: Corpus, rep: Report, tier: str):
         missing = kws - {kw.arg for kw in call.keywords}
         for m in sorted(missing):
             rep.violation("C19.R4", f"{fi.fq}|{'/'.join(sorted(callees))}({m}=)", fi.module.site(call), f"the {FILTER_ROLE[m]} filter is not handed on: it is silently ignored")
+    # (a0) both front ends' get_inventory_matches return the filter results in the filter's (inventory) order
+    base_ci = corpus.cls("mdit_to_docutils.base:DocutilsRenderer")
+    for impl in corpus.method_impls(base_ci, "get_inventory_matches"):
+        rep.saw_function(impl.fq)
+        k = f"{impl.fq}|matches are returned in inventory order"
+        rets = [n for n in impl.local_nodes() if isinstance(n, ast.Return) and n.value is not None]
+        if not rets:
+            raise Unsupported(f"{impl.qualname}: no return value")
+        bad = []
+        for r in rets:
+            bad += _order_breakers(r.value, impl)
+        if bad:
+            rep.violation("C19.R4", k, impl.module.site(bad[0][1]), f"`{short(bad[0][1], 60)}`: the matches are re-ordered with `{bad[0][0]}` before they are returned, so the entry an inv: link is rendered to (matches[0]) is no longer the first match in inventory order" + (" - and differs between the docutils and the Sphinx front end" if len(corpus.method_impls(base_ci, "get_inventory_matches")) > 1 else ""))
+        else:
+            rep.ok("C19.R4", k, impl.site())
     # (a') each given href part reaches its filter (flow-sensitive, per number of path parts)
     _href_parts_check(corpus, rep)
     # (a'') the inventory registered under a configuration key carries that entry's base URL
@@ -1895,7 +2035,7 @@ def r4_link_paths(corpus: Corpus, rep: Report, tier: str):
         if len(uris) != 1:
             raise Unsupported(f"{fi.qualname}: {len(uris)} refuri stores")
         k = f"{fi.fq}|refuri"
-        verdict = _refuri_verdict(uris[0], mv, rk)
+        verdict = _refuri_verdict(uris[0], mv, rk, fi.module)
         if verdict is None:
             rep.ok("C19.R4", k, fi.module.site(uris[0]), unparse(uris[0])[:100])
         else:
@@ -1903,7 +2043,7 @@ def r4_link_paths(corpus: Corpus, rep: Report, tier: str):
     rep.expect_min("C19.R4", 27, "13 pass-through keywords + 2 x (order, 3 count classes, first match, refuri)")
 
 
-def _refuri_verdict(e: ast.expr, mv: str, rk: str) -> str | None:
+def _refuri_verdict(e: ast.expr, mv: str, rk: str, mod=None) -> str | None:
     """None if the refuri expression has the specified shape, else what is wrong (Unsupported if unknown)."""
     loc, base = f"{mv}.loc", f"{mv}.base_url"
     if rk == "sphinx":
@@ -1922,6 +2062,12 @@ def _refuri_verdict(e: ast.expr, mv: str, rk: str) -> str | None:
             test = test.left
         if unparse(test) == base and unparse(b) == loc and isinstance(a, ast.Call) and (dotted(a.func) or "").endswith("join") and len(a.args) == 2:
             args = [unparse(x) for x in a.args]
+            joiner = mod.resolve(dotted(a.func) or "") if mod is not None else (dotted(a.func) or "")
+            if joiner == "urllib.parse.urljoin" and set(args) == {base, loc}:
+                return (f"`{short(a, 60)}` resolves the location *relative to* the base URL (RFC 3986): a base URL with a path and no trailing slash "
+                        "(e.g. https://docs.python.org/3.7) loses its last segment, so the link points outside the documentation instead of at base/location")
+            if joiner != "posixpath.join":
+                raise Unsupported(f"refuri is built with `{joiner}`; only posixpath.join (location appended to the base URL) is understood")
             if args == [base, loc]:
                 return None
             if args == [loc, base]:
@@ -2037,6 +2183,13 @@ def mutants(corpus: Corpus):
     if ys is not None:
         ind = " " * ys.col_offset
         add("c19-native-stop-after-first-hit", "C19.R3", inv, ys, ast.get_source_segment(inv.src, ys) + f"\n{ind}break", "enumeration is not cut short")
+    # class "a coordinate tested with a compiled pattern's match()/search() instead of a full match"
+    dcn = find_node(fn, lambda n: isinstance(n, ast.Call) and unparse(n.func) == "match_with_wildcard" and unparse(n.args[1]) == "domains")
+    if dcn is not None:
+        add("c19-native-compiled-pattern-prefix-match", "C19.R3", inv, dcn, f"_create_regex('*' if domains is None else domains).match({unparse(dcn.args[0])})", "DOMAIN is tested with a whole-string")
+    ocs = find_node(fs, lambda n: isinstance(n, ast.Call) and unparse(n.func) == "match_with_wildcard" and unparse(n.args[1]) == "otypes")
+    if ocs is not None:
+        add("c19-sphinx-compiled-pattern-search", "C19.R3", inv, ocs, f"_create_regex('*' if otypes is None else otypes).search({unparse(ocs.args[0])})", "OTYPE is tested with a whole-string")
     # class "the joined domain:type key matched with one pattern"
     tst = find_node(fs, lambda n: isinstance(n, ast.If) and "domains" in unparse(n.test) and "otypes" in unparse(n.test))
     keyvar = find_node(fs, lambda n: isinstance(n, ast.Assign) and isinstance(n.value, ast.Call) and isinstance(n.value.func, ast.Attribute) and n.value.func.attr == "split")
@@ -2097,6 +2250,11 @@ def mutants(corpus: Corpus):
     add("c19-refuri-base-url-dropped", "C19.R4", base, ru, "match.loc", "refuri")
     if ru is not None and isinstance(ru.body, ast.Call) and len(ru.body.args) == 2:
         add("c19-refuri-join-operands-swapped", "C19.R4", base, ru.body, f"{unparse(ru.body.func)}({unparse(ru.body.args[1])}, {unparse(ru.body.args[0])})", "refuri")
+    if ru is not None and isinstance(ru.body, ast.Call) and base.src.count("from urllib.parse import urlparse\n") == 1:
+        # class "URL-relative resolution instead of appending the location to the base URL"
+        out.append(Mutant("c19-refuri-urljoin", "C19.R4", base.rel, splice(base.src, ru.body.func, "urljoin").replace("from urllib.parse import urlparse\n", "from urllib.parse import urljoin, urlparse\n"), expect="refuri"))
+    else:
+        out.append(("c19-refuri-urljoin", "refuri join / urllib import not found in the expected shape"))
     dm = find_node(rl, lambda n: isinstance(n, ast.Assign) and unparse(n.targets[0]) == "domains" and isinstance(n.value, ast.Subscript))
     add("c19-href-domain-read-from-type-slot", "C19.R4", base, dm.value.slice if dm is not None else None, "2", "domains=")
     sg = sph.func("SphinxRenderer.get_inventory_matches")
@@ -2105,6 +2263,10 @@ def mutants(corpus: Corpus):
         kd = {k.arg: k for k in c.keywords}
         if "domains" in kd:
             add("c19-sphinx-renderer-domains-from-otypes", "C19.R4", sph, kd["domains"].value, "otypes", "domains=")
+    # class "matches re-ordered between the filter and the link"
+    for mid, mod_, f_ in (("c19-sphinx-matches-sorted", sph, sg), ("c19-docutils-matches-sorted", base, base.func("DocutilsRenderer.get_inventory_matches"))):
+        lc = find_node(f_, lambda n: isinstance(n, ast.Call) and isinstance(n.func, ast.Name) and n.func.id == "list" and isinstance(parent(n), ast.Return))
+        add(mid, "C19.R4", mod_, lc, f"sorted({unparse(lc.args[0])}, key=lambda m: m.name)" if lc is not None else "", "returned in inventory order")
     rr = refs.func("MystReferenceResolver._resolve_myst_ref_intersphinx")
     amb2 = find_node(rr, lambda n: isinstance(n, ast.If) and unparse(n.test) == "len(matches) > 1")
     add("c19-intersphinx-ambiguous-for-single-match", "C19.R4", refs, amb2.test if amb2 is not None else None, "len(matches) >= 1", "exactly one match")
